@@ -76,7 +76,10 @@ func (storer *PublishDistributor) Distribute(ctx context.Context, publish *packe
 	// Do not interrupt delivery if one destination fails, but return error to client
 	for peer := range destinations {
 		if peer == storer.ID {
-			storer.Storage.Append(publish)
+			if err := storer.Storage.Append(publish); err != nil {
+				failed = true
+				storer.Logger.Warn("failed to store publish", zap.Error(err))
+			}
 			continue
 		}
 		if storer.Transport == nil {
